@@ -520,7 +520,7 @@ def _session(texts):
     return [observe(t, env) for t in texts]
 
 
-def run_sessions(rundir, sessions, limit=20.0):
+def run_sessions(rundir, sessions, limit=120.0):
     """sessions: list of lists of Ka inputs; returns per session the list of observations"""
     return run_impl(_session, sessions, rundir, limit=limit, chunksize=1)
 
